@@ -391,6 +391,7 @@ type monitor struct {
 	readAt       map[[2]uint64]uint64 // ctx -> max commit when requested (C06)
 	kinds        map[uint64]byte      // C18
 	prevRole     map[uint64]uint64    // C18
+	prevCommit   map[uint64]uint64    // C02: commit index of a leader at its previous operation
 	viol         []string
 	elections    int
 	commits      int
@@ -403,7 +404,7 @@ type monitor struct {
 
 func newMonitor() *monitor {
 	return &monitor{leaderOfTerm: map[uint64]uint64{}, voteOf: map[[2]uint64]uint64{}, committed: map[uint64]commitRec{},
-		appliedNext: map[uint64]uint64{}, readAt: map[[2]uint64]uint64{}, kinds: map[uint64]byte{}, prevRole: map[uint64]uint64{}}
+		appliedNext: map[uint64]uint64{}, readAt: map[[2]uint64]uint64{}, kinds: map[uint64]byte{}, prevRole: map[uint64]uint64{}, prevCommit: map[uint64]uint64{}}
 }
 
 func (mo *monitor) v(p string, format string, a ...interface{}) {
@@ -553,6 +554,42 @@ func (mo *monitor) observe(c *raftsim.Cluster, op string, res raftsim.Result) {
 		mo.v("C18", "witness %d changed role to %d", n.ID, st.Role)
 	}
 	mo.prevRole[n.ID] = st.Role
+	// --- C02/C18: a leader advances its commit index to k only when a quorum of its voting members
+	// (voters and witnesses, itself included) holds entry k of its term: a member that acknowledged
+	// the entry still has it (or has compacted past it)
+	if pc, seen := mo.prevCommit[n.ID]; st.Role == 3 && seen && st.Committed > pc && !st.EntriesCompacted {
+		k := st.Committed
+		kt := termAt(st.Entries, st.FirstIndex, st.MarkerTerm, k)
+		voting, holders := 0, 0
+		for _, rm := range st.Remotes {
+			if rm.Kind != 0 && rm.Kind != 2 {
+				continue
+			}
+			voting++
+			if rm.ID == n.ID {
+				holders++
+				continue
+			}
+			o, ok := c.Nodes[rm.ID]
+			if !ok {
+				continue
+			}
+			os := raftsim.Inspect(o)
+			if os.FirstIndex > k+1 || (os.LastIndex >= k && !os.EntriesCompacted && termAt(os.Entries, os.FirstIndex, os.MarkerTerm, k) == kt) {
+				holders++
+			}
+		}
+		if kt != 0 && voting > 0 && holders < voting/2+1 {
+			for _, tag := range []string{"C02", "C18"} {
+				mo.v(tag, "leader %d advanced its commit index to %d (term %d) while only %d of its %d voting members hold that entry", n.ID, k, kt, holders, voting)
+			}
+		}
+	}
+	if st.Role == 3 {
+		mo.prevCommit[n.ID] = st.Committed
+	} else {
+		delete(mo.prevCommit, n.ID)
+	}
 	// --- C02: committed entries agree across replicas and never change. A commit index
 	// counts once the Update that carries it was taken (persisted): a single-voter leader
 	// advances it in memory while appending, before its own write, and a crash before that
